@@ -434,9 +434,9 @@ class Fitter:
         content: Fragment | None = None,
     ) -> None:
         top = self.frontier[self.depth]
-        top_match = top.match.match_type(type_)
-        assert top_match is not None
-        top.match = top_match
+        # The match may be None here (TypeScript only has a non-null `!`): the
+        # frontier item is then closed without being matched against again.
+        top.match = top.match.match_type(type_)  # type: ignore[assignment]
         self.placed = add_to_fragment(
             self.placed,
             self.depth,
